@@ -1,8 +1,8 @@
 -------------------------------- MODULE MCCli --------------------------------
 EXTENDS Cli
 AllCids == {"valid", "rejected", "missing"}
-AllKinds == {"accepted", "fieldRejected", "dupRejected", "shares", "lateDamage", "missing", "directory"}
-AllUntils == {"absent", "all", "0", "k2", "k9", "huge"}
+AllKinds == {"accepted", "fieldRejected", "dupRejected", "shares", "lateDamage", "endRejected", "missing", "directory"}
+AllUntils == {"absent", "all", "0", "k2", "k4", "k9", "huge"}
 OkArgs == {"ok"}
 BadArgs == {"none", "unknownOption", "untilTooSmall", "untilNotNumber", "badLogLevel", "untilWithoutValue", "pluginsWithoutValue", "optionBetweenCidAndData"}
 Plain == {"plain"}
